@@ -6,7 +6,7 @@ from simv.oracle import V
 
 ID = "C09"
 LEVEL = "exploration"
-QUICK_RUNS = 3000
+QUICK_RUNS = 4000
 CHUNK = 25
 RULE = ("seed -> schema with a Mutation root, mutation document with 2-5 root fields (aliases, fragments at the root, nested "
         "selections with lists), resolver data, optional faults on root-field subtrees, engine config, scheduler. Oracle over the "
